@@ -1474,3 +1474,270 @@ func ruleSameKeyForm(id string) func(*Checker) {
 		c.pass(id, "-", "table accesses compared", "-", fmt.Sprintf("%d access(es), %d in a mixed group without canonicalisation", len(accs), n))
 	}
 }
+
+// ---- round 11 ----
+
+// ruleDecodedPointersChecked — a pointer that json.Unmarshal may have left nil is tested before it is followed.
+func ruleDecodedPointersChecked(id string) func(*Checker) {
+	return func(c *Checker) {
+		c.rule(id, "Wherever the manifest types that encoding/json decodes into hold a pointer to a module struct (a field *T, a slice []*T, a map[K]*T), JSON null leaves it nil: every place in the decoding functions (and what they call) that follows such a pointer after loading it from memory (an element, a field, a map value, a range variable) lies behind a not-nil test of that very value. With value elements ([]T) null decodes to a zero struct and the later validation reports it; with pointer elements the same manifest makes OpenDir panic.", 0)
+		p := c.P
+		// the types decoded into
+		nullable := map[string]bool{} // "*pkg.T" strings of pointer types that occur inside decoded types
+		seenT := map[types.Type]bool{}
+		var walk func(t types.Type, depth int)
+		walk = func(t types.Type, depth int) {
+			if t == nil || depth > 8 || seenT[t] {
+				return
+			}
+			seenT[t] = true
+			switch x := t.Underlying().(type) {
+			case *types.Struct:
+				for i := 0; i < x.NumFields(); i++ {
+					walk(x.Field(i).Type(), depth+1)
+				}
+			case *types.Slice:
+				walk(x.Elem(), depth+1)
+			case *types.Array:
+				walk(x.Elem(), depth+1)
+			case *types.Map:
+				walk(x.Elem(), depth+1)
+			case *types.Pointer:
+				if n, ok := types.Unalias(x.Elem()).(*types.Named); ok && n.Obj().Pkg() != nil && strings.HasPrefix(n.Obj().Pkg().Path(), p.ModPath) {
+					if _, isStruct := n.Underlying().(*types.Struct); isStruct {
+						nullable[types.TypeString(x, nil)] = true
+					}
+				}
+				walk(x.Elem(), depth+1)
+			}
+		}
+		nDec := 0
+		var readers []*ssa.Function
+		for _, fn := range p.Funcs {
+			if !inBundlePkg(p, fn) {
+				continue
+			}
+			for _, ci := range callsIn(fn) {
+				o := calleeObj(ci)
+				if !(isFunc(o, "encoding/json", "Unmarshal") || isMethod(o, "encoding/json", "Decoder", "Decode")) {
+					continue
+				}
+				readers = append(readers, fn)
+				args := ci.Common().Args
+				tgt := args[len(args)-1]
+				if mi, ok := tgt.(*ssa.MakeInterface); ok {
+					tgt = mi.X
+				}
+				if pt, ok := tgt.Type().Underlying().(*types.Pointer); ok {
+					nDec++
+					// the root pointer itself is ours, not the decoder's: only what hangs below it
+					walk(pt.Elem(), 0)
+				}
+			}
+		}
+		if nDec == 0 {
+			c.anchorMissing(id, "a json.Unmarshal call in the bundle package")
+			return
+		}
+		n := 0
+		// what reads the decoded value: the decoding functions and what they call (the writer builds its own)
+		for _, fn := range sortedFuncs(p.reach(readers...)) {
+			if !inBundlePkg(p, fn) {
+				continue
+			}
+			eachInstr(fn, func(in ssa.Instruction) {
+				var base ssa.Value
+				switch x := in.(type) {
+				case *ssa.FieldAddr:
+					base = x.X
+				case *ssa.UnOp:
+					if x.Op == token.MUL {
+						if _, isPtr := x.X.Type().Underlying().(*types.Pointer); isPtr {
+							if _, toStruct := derefType(x.X.Type()).Underlying().(*types.Struct); toStruct {
+								base = x.X
+							}
+						}
+					}
+				}
+				if base == nil || !nullable[types.TypeString(base.Type(), nil)] {
+					return
+				}
+				// loaded from memory (not a fresh allocation, a parameter or a receiver)
+				ld := canon(base)
+				loaded := false
+				switch y := ld.(type) {
+				case *ssa.UnOp:
+					if y.Op == token.MUL {
+						switch y.X.(type) {
+						case *ssa.IndexAddr, *ssa.FieldAddr:
+							loaded = true
+						}
+					}
+				case *ssa.Lookup, *ssa.Extract, *ssa.Index, *ssa.Field:
+					loaded = true
+				}
+				if !loaded {
+					return
+				}
+				n++
+				notNil, _ := condEdgesNilTest(fn, base)
+				c.check(len(notNil) > 0 && guarded(in.Block(), notNil), id, p.FuncName(fn), "pointer of a decoded type followed: "+types.TypeString(base.Type(), func(pk *types.Package) string { return pk.Name() }), p.Pos(in.Pos()), "behind a not-nil test of the loaded pointer", "a "+types.TypeString(base.Type(), func(pk *types.Package) string { return pk.Name() })+" loaded from memory is followed without a nil test: the JSON decoder leaves such a pointer nil for a null in the manifest, and opening that manifest panics instead of returning an error")
+			})
+		}
+		_ = n
+	}
+}
+
+// ruleHostOpaque — the remote-address parsers do not judge the host of the URL.
+func ruleHostOpaque(id string) func(*Checker) {
+	return func(c *Checker) {
+		c.rule(id, "The grammar of remote addresses puts no condition on the host part beyond what net/url accepts: in what the exported Parse…/Make…/Must… functions of sourceaddrs reach, no branch condition depends on the Host of a url.URL (the field, Hostname(), Port(), or anything computed from them, through module helpers too) other than a comparison of the field with the empty string. A host validator added on the way (svchost.ForComparison(u.Host), a label-length check, a DNS-name pattern) refuses IPv6 literals with a port, names with an underscore and other hosts the grammar allows.", 0)
+		c.absence(id)
+		p := c.P
+		var fns []*ssa.Function
+		for _, fn := range p.Funcs {
+			if fn.Package() != nil && fn.Package().Pkg.Path() == p.PkgPath(addrPkg) {
+				fns = append(fns, fn)
+			} else if e := p.encl[fn]; e != nil && e.Package() != nil && e.Package().Pkg.Path() == p.PkgPath(addrPkg) {
+				fns = append(fns, fn)
+			}
+		}
+		isURL := func(t types.Type) bool {
+			n, ok := types.Unalias(derefType(t)).(*types.Named)
+			return ok && n.Obj().Pkg() != nil && n.Obj().Pkg().Path() == "net/url" && n.Obj().Name() == "URL"
+		}
+		hostDep := map[*ssa.Function]bool{}
+		type hit struct {
+			fn  *ssa.Function
+			ifi *ssa.If
+		}
+		var hits []hit
+		analyse := func(fn *ssa.Function, record bool) bool {
+			tainted := map[ssa.Value]bool{}
+			var work []ssa.Value
+			direct := map[ssa.Value]bool{} // loads of the Host field itself
+			add := func(v ssa.Value) {
+				if v != nil && !tainted[v] {
+					tainted[v] = true
+					work = append(work, v)
+				}
+			}
+			eachInstr(fn, func(in ssa.Instruction) {
+				switch x := in.(type) {
+				case *ssa.FieldAddr:
+					if isURL(x.X.Type()) && fieldOf(x) != nil && fieldOf(x).Name() == "Host" {
+						if refs := x.Referrers(); refs != nil {
+							for _, r := range *refs {
+								if ld, ok := r.(*ssa.UnOp); ok && ld.Op == token.MUL {
+									direct[ld] = true
+									add(ld)
+								}
+							}
+						}
+					}
+				case *ssa.Field:
+					if isURL(x.X.Type()) && fieldOf(x) != nil && fieldOf(x).Name() == "Host" {
+						direct[x] = true
+						add(x)
+					}
+				case *ssa.Call:
+					o := calleeObj(x)
+					if isMethod(o, "net/url", "URL", "Hostname") || isMethod(o, "net/url", "URL", "Port") {
+						add(x)
+					}
+					if g := x.Common().StaticCallee(); g != nil && hostDep[g] {
+						add(x)
+					}
+				}
+			})
+			returns := false
+			for len(work) > 0 {
+				v := work[len(work)-1]
+				work = work[:len(work)-1]
+				refs := v.Referrers()
+				if refs == nil {
+					continue
+				}
+				for _, r := range *refs {
+					switch x := r.(type) {
+					case *ssa.If:
+						if !record {
+							continue
+						}
+						// the one allowed test: the field itself against ""
+						cond, _ := stripNot(x.Cond)
+						if bo, ok := cond.(*ssa.BinOp); ok && (bo.Op == token.EQL || bo.Op == token.NEQ) {
+							if k, isC := constString(bo.Y); isC && k == "" && direct[bo.X] {
+								continue
+							}
+							if k, isC := constString(bo.X); isC && k == "" && direct[bo.Y] {
+								continue
+							}
+						}
+						hits = append(hits, hit{fn, x})
+					case *ssa.Return:
+						returns = true
+					case *ssa.Store:
+						if x.Val == v {
+							if al, ok := x.Addr.(*ssa.Alloc); ok {
+								if ar := al.Referrers(); ar != nil {
+									for _, u := range *ar {
+										if ld, ok := u.(*ssa.UnOp); ok && ld.Op == token.MUL {
+											add(ld)
+										}
+									}
+								}
+							}
+						}
+					case *ssa.Call:
+						// an argument of a call taints its results; copying the URL or printing it does not judge it
+						o := calleeObj(x)
+						if o != nil && o.Pkg() != nil && o.Pkg().Path() == "net/url" {
+							continue
+						}
+						add(x)
+					case ssa.Value:
+						add(x)
+					}
+				}
+			}
+			return returns
+		}
+		for changed := true; changed; {
+			changed = false
+			for _, fn := range fns {
+				if !hostDep[fn] && analyse(fn, false) {
+					hostDep[fn] = true
+					changed = true
+				}
+			}
+		}
+		// judged where addresses are made: what the exported Parse…/Make…/Must… functions reach
+		var entries []*ssa.Function
+		for _, fn := range fns {
+			if fn.Parent() == nil && fn.Object() != nil && fn.Object().Exported() && fn.Signature.Recv() == nil {
+				if n := fn.Name(); strings.HasPrefix(n, "Parse") || strings.HasPrefix(n, "Make") || strings.HasPrefix(n, "Must") {
+					entries = append(entries, fn)
+				}
+			}
+		}
+		if len(entries) == 0 {
+			c.anchorMissing(id, "the exported Parse…/Make… functions of sourceaddrs")
+			return
+		}
+		making := p.reach(entries...)
+		for _, fn := range fns {
+			if making[fn] {
+				analyse(fn, true)
+			}
+		}
+		seen := map[*ssa.If]bool{}
+		for _, h := range hits {
+			if seen[h.ifi] {
+				continue
+			}
+			seen[h.ifi] = true
+			c.fail(id, p.FuncName(h.fn), "branch on the URL's host", p.Pos(h.ifi.Cond.Pos()), "a branch in the address package depends on the host of the URL: the grammar leaves the host to net/url, so whatever this refuses (an IPv6 literal with a port, an underscore, a long label) is an address that follows the grammar and is no longer accepted")
+		}
+	}
+}
